@@ -153,3 +153,119 @@ def Model.enumAll (m : Model) (len : Nat) (ip : Str) (target : Nat) (fuel := 100
   m.enumFrom fuel (m.fill len ip target)
 
 end Omen
+
+/-!
+## `MarkovCracker`: cursors over lengths and initial n-grams
+
+`ipTbl[level]` / `lnTbl[level]` are the lists `grammar['ip'][level]` / `grammar['ln'][level]` (file
+order); `lnTbl` holds `cp_length = password length − (ngram − 1)`.
+-/
+namespace Omen
+
+structure Tables where
+  m : Model
+  ipTbl : List (List Str)
+  lnTbl : List (List Nat)
+
+/-- `_find_first_object`: scans `range(0, max_level)`; `none` = the code raises -/
+def findFirst {α : Type} (maxLevel : Nat) (tbl : List (List α)) : Option Nat :=
+  (List.range maxLevel).find? fun l => (tbl.getD l []).length != 0
+
+/-- shared shape of `_increase_ip_for_target` / `_increase_len_for_target`:
+`while level <= max_level: if size > index: return; level += 1; index = 0; if level > max_level: return False; elif level > bound: return False` -/
+def advance (sizes : Nat → Nat) (maxLevel : Nat) (bound : Int) : Nat → Nat → Nat → Option (Nat × Nat)
+  | 0, _, _ => none
+  | fuel + 1, level, index =>
+    if level ≤ maxLevel then
+      if sizes level > index then some (level, index)
+      else if level + 1 > maxLevel then none
+      else if ((level + 1 : Nat) : Int) > bound then none
+      else advance sizes maxLevel bound fuel (level + 1) 0
+    else none
+
+structure Cursor where
+  lenLvl : Nat
+  lenIdx : Nat
+  ipLvl : Nat
+  ipIdx : Nat
+deriving Repr, DecidableEq
+
+/-- state of a `MarkovCracker` after at least one call of `next_guess` -/
+structure CState where
+  cur : Cursor
+  /-- `GuessStructure.parse_tree`; `[]` = nothing generated yet for this (length, ip) -/
+  tree : List Item
+deriving Repr
+
+def Tables.curIp (t : Tables) (c : Cursor) : Str := (t.ipTbl.getD c.ipLvl []).getD c.ipIdx []
+def Tables.curLen (t : Tables) (c : Cursor) : Nat := (t.lnTbl.getD c.lenLvl []).getD c.lenIdx 0
+
+/-- `target_level - cur_len[0] - cur_ip[0]`, `none` when negative (then every lookup fails) -/
+def Tables.gsTarget (_t : Tables) (target : Nat) (c : Cursor) : Option Nat :=
+  if c.lenLvl + c.ipLvl ≤ target then some (target - c.lenLvl - c.ipLvl) else none
+
+/-- `GuessStructure.next_guess` -/
+def Tables.gsNext (t : Tables) (target : Nat) (s : CState) : Option (List Item) :=
+  match s.tree with
+  | [] =>
+    match t.gsTarget target s.cur with
+    | none => none
+    | some tg => t.m.fill (t.curLen s.cur) (t.curIp s.cur) tg
+  | tr => t.m.nextTree tr
+
+def Tables.increaseIp (t : Tables) (target : Nat) (c : Cursor) : Option Cursor :=
+  match advance (fun l => (t.ipTbl.getD l []).length) t.m.maxLevel ((target : Int) - c.lenLvl)
+      (t.m.maxLevel + 2) c.ipLvl (c.ipIdx + 1) with
+  | some (l, i) => some { c with ipLvl := l, ipIdx := i }
+  | none => none
+
+def Tables.increaseLen (t : Tables) (target : Nat) (startIp : Nat) (c : Cursor) : Option Cursor :=
+  match advance (fun l => (t.lnTbl.getD l []).length) t.m.maxLevel (target : Int)
+      (t.m.maxLevel + 2) c.lenLvl (c.lenIdx + 1) with
+  | some (l, i) => some ⟨l, i, startIp, 0⟩
+  | none => none
+
+/-- the `while guess is None` loop of `MarkovCracker.next_guess`; fuel bounds the number of
+(length, ip) pairs tried -/
+def Tables.seek (t : Tables) (target startIp : Nat) : Nat → CState → Option (List Item × CState)
+  | 0, _ => none
+  | fuel + 1, s =>
+    match t.gsNext target s with
+    | some tr => some (tr, { s with tree := tr })
+    | none =>
+      match t.increaseIp target s.cur with
+      | some c => t.seek target startIp fuel ⟨c, []⟩
+      | none =>
+        match t.increaseLen target startIp s.cur with
+        | some c => t.seek target startIp fuel ⟨c, []⟩
+        | none => none
+
+def Tables.pairCount (t : Tables) : Nat :=
+  ((t.ipTbl.map List.length).sum + 1) * ((t.lnTbl.map List.length).sum + 1) + 1
+
+/-- initial state (`cur_guess is None` branch); `none` = `_find_first_object` raises -/
+def Tables.start (t : Tables) : Option CState :=
+  match findFirst t.m.maxLevel t.ipTbl, findFirst t.m.maxLevel t.lnTbl with
+  | some si, some sl => some ⟨⟨sl, 0, si, 0⟩, []⟩
+  | _, _ => none
+
+/-- one `MarkovCracker.next_guess()`: the guess, and the state afterwards -/
+def Tables.next (t : Tables) (target : Nat) (s : CState) : Option (Str × CState) :=
+  match t.seek target ((findFirst t.m.maxLevel t.ipTbl).getD 0) t.pairCount s with
+  | some (tr, s') => some (t.curIp s'.cur ++ tr.filterMap t.m.charAt, s')
+  | none => none
+
+/-- every guess of one level, in order; `limit` bounds the number of guesses -/
+def Tables.enumFrom (t : Tables) (target : Nat) : Nat → CState → List Str
+  | 0, _ => []
+  | fuel + 1, s =>
+    match t.next target s with
+    | some (g, s') => g :: t.enumFrom target fuel s'
+    | none => []
+
+def Tables.enumLevel (t : Tables) (target : Nat) (limit : Nat) : Option (List Str) :=
+  match t.start with
+  | some s => some (t.enumFrom target limit s)
+  | none => none
+
+end Omen
